@@ -44,7 +44,7 @@ def execute_case(prop, case, want_trace=False):
     pol = case.get('policy') or {'kind': 'random', 'p_stay': 0.5}
     sim = core.Sim(case.get('sched_seed', 0), knobs=knobs, policy=core.Policy(**pol),
                    script=case.get('script'), lenient=case.get('lenient', True))
-    shims.install(sim, extra_code_prefixes=[WORKLOADS])
+    shims.install(sim, extra_code_prefixes=[os.path.join(WORKLOADS, 'targets.py')])
     t0 = time.time()
     res = {'violations': [], 'outcome': None}
     try:
